@@ -57,6 +57,30 @@ def cases(d):
     # a sequence of calls so that previous values matter
     calls = [{"kind": d.choice(E.KINDS), "seed": d.seed()} for _ in range(d.randint(2, 4))]
     case["calls"] = calls
+    # bounding statements: the shapes range inference acts on (comparison with a literal / another field, in-ranges)
+    cls = flat.cls_of(case["prog"])
+    rfs = [f for f in cls["fields"] if f["rand"] and f["kind"] != "enum"]
+    if rfs and d.chance(70):
+        extra = []
+        for _ in range(d.randint(1, 2)):
+            f = d.choice(rfs)
+            lo, hi = sem.type_range(f)
+            r = d.randint(0, 99)
+            if r < 40:
+                extra.append(["expr", ["bin", d.choice(["<", "<=", ">", ">=", "==", "!="]), ["f", f["name"]], ["lit", d.randint(lo, hi)]]])
+            elif r < 70:
+                items = []
+                for _ in range(d.randint(1, 3)):
+                    a = d.randint(lo, hi)
+                    items.append(["rng", ["lit", a], ["lit", d.randint(a, hi)]] if d.chance(60) else ["lit", a])
+                extra.append(["expr", ["in", ["f", f["name"]], items]])
+            elif len(rfs) > 1:
+                g2 = d.choice([x for x in rfs if x is not f])
+                extra.append(["expr", ["bin", d.choice(["<", "<=", ">", "=="]), ["f", f["name"]],
+                                       ["f", g2["name"]] if d.chance(60) else ["bin", "+", ["f", g2["name"]], ["lit", d.randint(0, 2)]]]])
+        blk = d.choice(cls["blocks"])
+        for e in extra:
+            blk["stmts"].insert(d.randint(0, len(blk["stmts"])), e)
     # optionally set random fields to out-of-solution "previous" values first (they are just current values)
     return case
 
@@ -123,7 +147,18 @@ def pred_mixed_sign(case, field=None):
                         hit.append(e)
     _walk_stmts(all_stmts(case), fn)
     if field is not None:
-        hit = [e for e in hit if field in sem.fields_of_expr(e)]
+        # the comparison is in the field's constraint set: connected through statements that share fields
+        # (inferred bounds propagate along those, e.g. f0 <= f2 with f2 < -8)
+        comp = {field}
+        stmts = [sem.fields_of_stmt(st) for st in all_stmts(case)]
+        changed = True
+        while changed:
+            changed = False
+            for fs in stmts:
+                if fs & comp and not fs <= comp:
+                    comp |= fs
+                    changed = True
+        hit = [e for e in hit if sem.fields_of_expr(e) & comp]
     return bool(hit)
 
 
@@ -152,7 +187,7 @@ def pred_wrap(case):
 def shape_of(case, field=None):
     out = []
     if field is not None and pred_mixed_sign(case, field):
-        out.append("mixed-sign comparison on the starved field")
+        out.append("mixed-sign comparison in the starved field's constraint set")
     elif pred_mixed_sign(case):
         out.append("mixed-sign elsewhere")
     if pred_wrap(case):
